@@ -60,7 +60,9 @@ def _asm(n, bits, tiers, undec=None):
         "functions": ASM_FUNCS,
         "bounds": _shape(n, bits, undec) + "; slot any u64, slice roots any 32 bytes, every parent id any (u64 slot, 32-byte hash); input class: malformed, or effective parent in an earlier slot (the complementary class is c13_parent_slot_*)",
         "stubs": [HASH_STUB, LOG_STUB, DEC_STUB], "covers": 3,
-        "timeout": {"quick": 480, "thorough": 1500}, "mem_gb": 10, "cbmc_args": CBMC,
+        # kissat (external process): since the parent-slot check was added to try_reconstruct_block (fix: a0f7634) the
+        # multi-slice shapes exceed 16 GB in CaDiCaL's propositional reduction
+        "timeout": {"quick": 900, "thorough": 1800}, "mem_gb": 16, "cbmc_args": CBMC,
     }
 
 
@@ -70,7 +72,7 @@ def _pslot(n, tiers):
         "functions": ASM_FUNCS,
         "bounds": _shape(n, 2 if n == 2 else 0, None) + "; slot any u64, roots and parent ids arbitrary; input class: well-formed and the effective parent's slot >= the block's slot",
         "stubs": [HASH_STUB, LOG_STUB, DEC_STUB], "covers": 3,
-        "timeout": {"quick": 480, "thorough": 1500}, "mem_gb": 10, "cbmc_args": CBMC,
+        "timeout": {"quick": 480, "thorough": 1500}, "mem_gb": 16, "cbmc_args": CBMC,
     }
 
 
